@@ -32,6 +32,11 @@ C14_TOPOS = {
     "fan_TET": dict(until=2, sims=[T("A"), E("B", emit_default=0), E("Z")],
                     conns=[C("A", "B", "po", "ti"), C("B", "Z", "eo", "ti")]),
     "indep3": dict(until=2, sims=[T("A"), T("B"), T("X")], conns=[C("A", "B", "po", "mi")]),
+    # an agent with a request of its own to mosaik (get_data for an attribute that is not in
+    # the cache, so that mosaik has to ask A) -- the fault can hit while that is outstanding
+    "async_agent": dict(until=2, sims=[H("A", next_default=1),
+                                       T("M", **{"async": {"0": [("get", "A.e", "eo")]}}), T("X")],
+                        conns=[dict(C("A", "M", "po", "mi"), **{"async": True})]),
 }
 
 
@@ -113,8 +118,13 @@ def c14_cases(tier):
                     reqs.append(("step", k))
                     if has_out:
                         reqs.append(("get_data", k))
+                for k_, acts in (s.get("async") or {}).items():
+                    if tr == "mem" and any(a[0] == "get" for a in acts):
+                        reqs.append(("async", int(k_)))
                 for req, k in reqs:
                     for fk in (FAULT_KINDS_LOCAL if tr == "local" else FAULT_KINDS_MEM):
+                        if req == "async" and fk not in ("close", "die"):
+                            continue
                         sc = copy.deepcopy(scen)
                         next(x for x in sc["sims"] if x["sid"] == sid)["fault"] = dict(req=req, k=k, kind=fk)
                         out.append((f"{name}/{tr}/{sid}/{req}[{k}]/{fk}", sc,
@@ -144,6 +154,9 @@ def inject(run, stub, f):
         stub.gone = True
         stub.died = True
         return
+    if kind in ("close", "die") and run.gated and run.cfg.get("fault_gate"):
+        # *when* the fault happens, relative to everything else in flight, is a choice
+        yield run.loop.gate((stub.sid, "fault", f["k"]))
     if kind == "close":
         # the simulator closes its connection before replying, then goes away
         ch._writer.close()
@@ -331,14 +344,15 @@ def c13_realtime_cases(only=None):
 
 def real_process_supplement(rep):
     """Crash-point enumeration against a real sub-process simulator over real sockets
-    (findings/realproc): the process exits while idle, in setup_done, in step, in get_data.
+    (findings/realproc): the process exits while idle, in setup_done, in step, in get_data, and while a request of
+    its own to mosaik is outstanding.
     Timing based (wall-clock bound of 8 s per run), exhaustive only in the crash points; it is
     reported separately and is not part of the exhaustive-schedule claim."""
     import subprocess
     import sys
     script = os.path.join(env.VERIF_DIR, "findings", "realproc", "run.py")
     out = {}
-    for point in ("idle_after_create", "setup_done", "step", "get_data"):
+    for point in ("idle_after_create", "setup_done", "step", "get_data", "async_outstanding"):
         try:
             r = subprocess.run([sys.executable, script, point], capture_output=True, text=True,
                                timeout=120, env=dict(os.environ, VERIF_REPO=env.REPO))
@@ -392,11 +406,16 @@ def check(prop, tier):
     else:
         d = 1 if tier == "quick" else 2
         for name, scen, fault in c14_cases(tier):
+            # fault_gate: *when* a close/die happens relative to the replies in flight is a
+            # choice of the explorer as well (thorough tier; quick: the topology with requests
+            # of the simulators' own)
+            fg = dict(fault_gate=True) if (tier == "thorough" or name.startswith("async_agent")) \
+                and fault["transport"] == "mem" else {}
             jobs.append((prop, name, scen, fault,
-                         dict(lazy=True, cache=True, transport=fault["transport"]), d, 4000))
+                         dict(lazy=True, cache=True, transport=fault["transport"], **fg), d, 4000))
             if fault["transport"] == "mem" and fault["kind"] != "raise":
                 jobs.append((prop, name + "/silent-writes", scen, fault,
-                             dict(lazy=True, cache=True, transport="mem", lost_write="silent"),
+                             dict(lazy=True, cache=True, transport="mem", lost_write="silent", **fg),
                              d, 4000))
     rep = findings.Reporter(prop)
     tot = dict(execs=0, states=0, trans=0, merges=0, capped=0, jobs=0)
